@@ -135,6 +135,27 @@ def nice_model(constraints, syms, timeout_ms=3000, budget_s=6.0):
     return m
 
 
+def generic_model(constraints, syms, timeout_ms=5000):
+    """a model in which the finite real inputs are pairwise distinct and none of 0, 1/2, 1 (replays with uninterpreted
+    operators instantiated by generic polynomials need non-degenerate operands to show a mis-wiring)"""
+    if S.mode != "R":
+        return None
+    vs = [x.v for x in syms if isinstance(x, RFloat) and not z3.is_rational_value(x.v)]
+    if not vs:
+        return None
+    s = z3.Solver()
+    s.set("timeout", int(timeout_ms))
+    for c in constraints:
+        if not isinstance(c, bool):
+            s.add(c)
+    s.add(z3.Distinct(*vs) if len(vs) > 1 else z3.BoolVal(True))
+    for v in vs:
+        s.add(v != 0, v != 1, v != z3.Q(1, 2))
+    if s.check() != z3.sat:
+        return None
+    return s.model()
+
+
 class ObResult:
     def __init__(self, name):
         self.name = name
@@ -292,7 +313,9 @@ class Ob:
             elif attempt == 1:
                 m = model
             else:
-                break
+                m = generic_model(cons, list(inputs.values()))
+                if m is None:
+                    break
             vals = {}
             for k, x in inputs.items():
                 try:
